@@ -71,7 +71,11 @@ def run(ctx):
         n += 1
         r = n % 10
         if r < 6:
-            ctx.check(("line", "N:" + rand_line(rng, maxlen)), "random")
+            if n % 4 == 0:
+                # no name in front: the line starts with whatever character comes first (not SP/HTAB, S23), e.g. U+FEFF or a combining mark
+                ctx.check(("line", (rng.choice(("\ufeff", "\u0301", "\u200b", "é", "", "")) + rand_line(rng, maxlen)).lstrip(" \t")), "random")
+            else:
+                ctx.check(("line", "N:" + rand_line(rng, maxlen)), "random")
         elif r < 8:
             k = rng.randrange(2, 6)
             ctx.check(("lines", tuple("L%d;P=x:" % j + rand_line(rng, maxlen // 2) for j in range(k))), "streams")
@@ -101,7 +105,10 @@ def check_case(ctx, case):
         if probs:
             ctx.fail("fold-single", observed=probs, expected="<=75 octets, whole characters, SP continuation, exact unfold")
         back = Contentline.from_ical(b)
-        if str(back) != s:
+        if s.startswith("\ufeff"):
+            # read back as a byte stream of its own, the first character is a byte-order mark (C09): only the reference unfolding above decides
+            ctx.count("library-unfold:skipped-leading-bom")
+        elif str(back) != s:
             ctx.fail("library-unfold", observed=str(back), expected=s)
     elif kind == "lines":
         lines = list(case[1])
